@@ -797,3 +797,220 @@ def _stmt_c19(node):
     while n is not None and not isinstance(n, ast.stmt):
         n = getattr(n, '_parent', None)
     return n
+
+
+@obligation('C19-i', 'T11 T8', 'contains() answers True exactly when no coordinate is beyond a '
+            'limit: the verdict starts True, turns False under the disjunction of the two limit '
+            'tests of one dimension, and is returned', floor=3,
+            necessary='a negated or conjunctive limit test, or a verdict that is not returned, '
+                      'rejects the region\'s own samples or accepts points outside it')
+def c19_i(ctx):
+    from .base import unweak
+    bb = ctx.cls(BB)
+    co = ctx.own_method(bb, 'contains')
+    ex = ctx.ex(co)
+    cfg = cfg_of(co)
+    rr = returns(co)
+    falls = [p for (p, lab) in cfg.ret.pred
+             if not (p.kind == 'stmt' and isinstance(p.ast, ast.Return))]
+    loops = [n for n in own_nodes(co.node) if isinstance(n, ast.For)]
+    if len(loops) != 1 or not rr:
+        ctx.undecided('membership loop / return of contains not found')
+    lo = loops[0]
+    falses = [n for n in ast.walk(lo) if isinstance(n, ast.Assign) and
+              isinstance(n.targets[0], ast.Name) and ex.raw(n.value) == ('const', False)]
+    early_false = [r for r in rr if _inside(r, lo) and ex.raw(r.value) == ('const', False)]
+    verdicts = falses or early_false
+    if not verdicts:
+        ctx.bad(co, 'verdict turns False beyond a limit', 'no `inside = False` in the loop',
+                fn=co, node=lo)
+        return
+    # the initial verdict and the returned value
+    if falses:
+        v = falses[0].targets[0].id
+        inits = [n for n in own_nodes(co.node) if isinstance(n, ast.Assign) and
+                 isinstance(n.targets[0], ast.Name) and n.targets[0].id == v and
+                 not _inside(n, lo)]
+        ok = len(inits) == 1 and ex.raw(inits[0].value) == ('const', True) and \
+            cfg.must_precede([ctx.node(co, inits[0])], cfg.by_stmt[id(lo)]) and \
+            not ctx.guard_groups(co, inits[0])
+        ok = ok and not falls and all(
+            (ex.raw(r.value) == ('name', v) and not _inside(r, lo)) or
+            (_inside(r, lo) and ex.raw(r.value) in (('name', v), ('const', False)))
+            for r in rr) and any(not _inside(r, lo) for r in rr)
+        ctx.check(ok, co, 'verdict starts True and is what is returned',
+                  'inside = True; ...; return inside',
+                  'the verdict does not start as True before the loop, or is not the value '
+                  'returned on every exit', fn=co, node=inits[0] if inits else rr[0])
+    else:
+        ok = not falls and any((not _inside(r, lo)) and ex.raw(r.value) == ('const', True)
+                               for r in rr)
+        ctx.check(ok, co, 'True after all dimensions passed', 'return True after the loop',
+                  'contains does not answer True when no dimension failed', fn=co, node=rr[-1])
+    # the condition under which the verdict turns False: (p_i < left_i) or (p_i > right_i)
+    for n in verdicts:
+        good = False
+        inner = set(id(x) for x in ast.walk(lo))
+        groups = []
+        for (tn, pol) in cfg.guards_of(ctx.node(co, n)):
+            if tn.kind == 'test' and id(tn.ast) in inner:
+                groups.append((ex.term(tn.ast, tn), pol))
+        if len(groups) == 1:
+            (t, pol) = groups[0]
+            t = unweak(t)
+            if pol and t[0] == 'bool' and t[1] == 'or' and len(t[2]) == 2:
+                ms = []
+                for part in t[2]:
+                    m1 = match_any(part, ('_p[_i] < self.limits[_j][0]',
+                                          'self.limits[_j][0] > _p[_i]'))
+                    m2 = match_any(part, ('_p[_i] > self.limits[_j][1]',
+                                          'self.limits[_j][1] < _p[_i]'))
+                    if m1 is not None:
+                        ms.append(('lo', m1))
+                    elif m2 is not None:
+                        ms.append(('hi', m2))
+                good = sorted(k for (k, _) in ms) == ['hi', 'lo'] and \
+                    all(m['i'] == m['j'] for (_, m) in ms) and \
+                    ms[0][1]['i'] == ms[1][1]['i'] and ms[0][1]['p'] == ms[1][1]['p'] and \
+                    ms[0][1]['i'][0] == 'elem'
+        ctx.check(good, co, 'False exactly when a coordinate is beyond one of its own limits',
+                  'if (p[i] < limits[i][0]) or (p[i] > limits[i][1]): inside = False',
+                  'the verdict turns False under another condition than `p[i] < left_i or '
+                  'p[i] > right_i` of one and the same dimension', fn=co, node=n)
+    # an early exit from the loop only after the verdict turned False
+    brs = [n for n in ast.walk(lo) if isinstance(n, ast.Break)]
+    ok = all(cfg.must_precede([ctx.node(co, v_) for v_ in verdicts], ctx.node(co, b))
+             for b in brs)
+    ctx.check(ok, co, 'the loop is left early only with a False verdict',
+              'break only after inside = False',
+              'the loop over the dimensions can be left before all of them were tested with '
+              'the verdict still True', fn=co, node=brs[0] if brs else lo)
+
+
+@obligation('C19-j', 'T7 T11', 'the posterior\'s parallel lists stay in step: every region of every '
+            'accepted problem contributes exactly one region and exactly one distance function, '
+            'of the same problem (and, for local models, the same region index)', floor=4,
+            necessary='the density and the weights pair regions[i] with funcs[i]: a list that '
+                      'grows under another condition pairs a region with another problem\'s '
+                      'distance')
+def c19_j(ctx):
+    import itertools
+    romc = ctx.cls(ROMC + ':ROMC')
+    dp = ctx.own_method(romc, '_define_posterior')
+    ex = ctx.ex(dp)
+    cfg = cfg_of(dp)
+    rp = ctx.calls(dp, 'RomcPosterior(*_)')
+    if len(rp) != 1:
+        raise AnchorMissing('RomcPosterior construction in _define_posterior')
+    rinit = ctx.cls(RP).lookup('__init__')
+    pnames = [a.arg for a in rinit.node.args.args][1:]
+
+    def _arg(name):
+        i = pnames.index(name)
+        if i < len(rp[0].args):
+            return rp[0].args[i]
+        for kw in rp[0].keywords:
+            if kw.arg == name:
+                return kw.value
+        raise AnchorMissing('RomcPosterior(... {} ...)'.format(name))
+    lists = {}
+    for nm in ('regions', 'objectives'):
+        a = _arg(nm)
+        if not isinstance(a, ast.Name):
+            ctx.undecided('{} is not passed as a local list'.format(nm))
+        lists[nm] = a.id
+    apps = dict((nm, [c for c in ctx.calls(dp) if isinstance(c.func, ast.Attribute) and
+                      c.func.attr == 'append' and isinstance(c.func.value, ast.Name) and
+                      c.func.value.id == v]) for (nm, v) in lists.items())
+    ra, oa = apps['regions'], apps['objectives']
+    if len(ra) != 1 or not oa:
+        ctx.undecided('appends to the region / distance lists not found')
+    lo = enclosing_loop(ra[0])
+    ok = isinstance(lo, ast.For) and all(enclosing_loop(c) is lo for c in oa)
+    # the region appended is the loop's own element, of the enumerated regions of one problem
+    it = ex.term(lo.iter, cfg.by_stmt[id(lo)]) if isinstance(lo, ast.For) else None
+    m = match(it, pattern('enumerate(_p.regions)')) if it is not None else None
+    m0 = match(it, pattern('_p.regions')) if it is not None else None
+    prob = (m or m0 or {}).get('p')
+    rt = ex.term(ra[0].args[0])
+    ok = ok and prob is not None and ((m is not None and rt[0] == 'item' and rt[2] == 1 and
+                                       rt[1][0] == 'elem') or (m0 is not None and rt[0] == 'elem'))
+    ctx.check(ok, dp, 'one region per region of an accepted problem',
+              'for jj, region in enumerate(prob.regions): regions.append(region)',
+              'the region list is not filled with every region of the problem, inside one loop '
+              'with the distance functions', fn=dp, node=ra[0])
+    if not ok:
+        return
+    # the only condition on the loop: the problem has regions (True side)
+    outer = [(ex.term(tn.ast, tn), pol) for (tn, pol) in cfg.guards_of(cfg.by_stmt[id(lo)])
+             if tn.kind == 'test']
+    ok = len(outer) == 1 and outer[0][1] and \
+        match(outer[0][0], pattern("_p.state['region']")) is not None and \
+        match(outer[0][0], pattern("_p.state['region']"))['p'] == prob
+    ctx.check(ok, dp, 'exactly the problems that have a region',
+              "if prob.state['region']: ...",
+              'the regions are not collected from exactly the problems whose region was built',
+              fn=dp, node=lo)
+    # inside the loop the region append is unconditional; the distance appends fire exactly once
+    inner = set(id(x) for x in ast.walk(lo))
+
+    def local_guards(node):
+        out = []
+        for (tn, pol) in cfg.guards_of(ctx.node(dp, _stmt_c19(node))):
+            if tn.kind == 'test' and id(tn.ast) in inner:
+                out.append((tn, pol))
+        return out
+    ctx.check(not local_guards(ra[0]), dp, 'region appended unconditionally inside the loop',
+              'regions.append(region)', 'the region is appended under an extra condition', fn=dp,
+              node=ra[0])
+    flags = set()
+    conds = []
+    okf = True
+    for c in oa:
+        facts = {}
+        for (tn, pol) in local_guards(c):
+            t = ex.raw(tn.ast)
+            p = pol
+            while t[0] == 'unary' and t[1] == 'not':
+                t, p = t[2], not p
+            items = [(t, p)]
+            if t[0] == 'bool' and ((t[1] == 'and' and p) or (t[1] == 'or' and not p)):
+                items = [(x, p) for x in t[2]]
+            elif t[0] == 'bool':
+                okf = False
+            for (x, q) in items:
+                while x[0] == 'unary' and x[1] == 'not':
+                    x, q = x[2], not q
+                if x[0] != 'name':
+                    okf = False
+                else:
+                    facts[x[1]] = q
+                    flags.add(x[1])
+        conds.append(facts)
+    once = okf and len(flags) <= 3
+    if once:
+        fl = sorted(flags)
+        for vals in itertools.product((False, True), repeat=len(fl)):
+            env = dict(zip(fl, vals))
+            fired = sum(1 for f_ in conds if all(env[k] == v for (k, v) in f_.items()))
+            once = once and fired == 1
+    ctx.check(once, dp, 'exactly one distance function per region, whatever the flags',
+              'the conditions of the objectives.append(...) calls are exhaustive and exclusive',
+              'for some setting of the flags a region gets no distance function, or two: '
+              'regions[i] is then paired with the distance function of another region', fn=dp,
+              node=oa[0])
+    # each appended function belongs to the same problem (and region index)
+    okp = True
+    for c in oa:
+        t = ex.term(c.args[0])
+        m1 = match(t, pattern('_p.local_surrogates[_j]'))
+        m2 = match(t, pattern('_p.surrogate'))
+        m3 = match(t, pattern('_p.objective'))
+        mm = m1 or m2 or m3
+        okp = okp and mm is not None and mm['p'] == prob
+        if m1 is not None:
+            okp = okp and m is not None and m1['j'] == ('item', rt[1], 0)
+    ctx.check(okp, dp, 'distance function of the same problem and region',
+              'prob.local_surrogates[jj] | prob.surrogate | prob.objective',
+              'a distance function of another problem (or another region index) is paired with '
+              'the region', fn=dp, node=oa[0])
